@@ -35,6 +35,20 @@ let out_ldv name (c : float SlurryCalc.ldv_curves) =
        out_list (name ^ ".il") c.SlurryCalc.lc_il; out_list (name ^ ".Erhg") c.SlurryCalc.lc_Erhg;
        out_list (name ^ ".im") c.SlurryCalc.lc_im]
 
+let out_curves (c : float SlurryCalc.curves) : string =
+    let e = c.SlurryCalc.c_Erhg and i = c.SlurryCalc.c_im in
+    cat [out_list "vls" c.SlurryCalc.c_vls;
+         out_list "E.il" e.SlurryCalc.ec_il; out_list "E.Cvs_Erhg" e.SlurryCalc.ec_Cvs_Erhg;
+         out_list "E.FB" e.SlurryCalc.ec_FB; out_list "E.SB" e.SlurryCalc.ec_SB; out_list "E.He" e.SlurryCalc.ec_He;
+         out_list "E.Ho" e.SlurryCalc.ec_Ho; out_regimes "E.Cvs_regime" e.SlurryCalc.ec_regime;
+         out_list "E.Cvs_from_Cvt" e.SlurryCalc.ec_Cvs_from_Cvt; out_list "E.Cvt_Erhg" e.SlurryCalc.ec_Cvt_Erhg;
+         out_list "E.graded_Cvs_Erhg" e.SlurryCalc.ec_graded_Cvs; out_list "E.graded_Cvt_Erhg" e.SlurryCalc.ec_graded_Cvt;
+         out_list "I.il" i.SlurryCalc.ic_il; out_list "I.Cvs_im" i.SlurryCalc.ic_Cvs_im; out_list "I.FB" i.SlurryCalc.ic_FB;
+         out_list "I.SB" i.SlurryCalc.ic_SB; out_list "I.He" i.SlurryCalc.ic_He; out_list "I.ELM" i.SlurryCalc.ic_ELM;
+         out_list "I.Ho" i.SlurryCalc.ic_Ho; out_list "I.Cvt_im" i.SlurryCalc.ic_Cvt_im;
+         out_list "I.graded_Cvs_im" i.SlurryCalc.ic_graded_Cvs_im; out_list "I.graded_Cvt_im" i.SlurryCalc.ic_graded_Cvt_im;
+         out_ldv "LDV" c.SlurryCalc.c_LDV; out_ldv "LDV85" c.SlurryCalc.c_LDV85]
+
 let dispatch (name : string) (a : string array) : string =
   pos := 0;
   match name with
@@ -65,19 +79,41 @@ let dispatch (name : string) (a : string array) : string =
   | "Slurry.curves" ->
     let sf = get_bool a in let sq = get_bool a in
     let p = get_params a in let g = get_pairs a in
-    let c = SlurryCalc.generate_curves fN sf sq p g in
-    let e = c.SlurryCalc.c_Erhg and i = c.SlurryCalc.c_im in
-    cat [out_list "vls" c.SlurryCalc.c_vls;
-         out_list "E.il" e.SlurryCalc.ec_il; out_list "E.Cvs_Erhg" e.SlurryCalc.ec_Cvs_Erhg;
-         out_list "E.FB" e.SlurryCalc.ec_FB; out_list "E.SB" e.SlurryCalc.ec_SB; out_list "E.He" e.SlurryCalc.ec_He;
-         out_list "E.Ho" e.SlurryCalc.ec_Ho; out_regimes "E.Cvs_regime" e.SlurryCalc.ec_regime;
-         out_list "E.Cvs_from_Cvt" e.SlurryCalc.ec_Cvs_from_Cvt; out_list "E.Cvt_Erhg" e.SlurryCalc.ec_Cvt_Erhg;
-         out_list "E.graded_Cvs_Erhg" e.SlurryCalc.ec_graded_Cvs; out_list "E.graded_Cvt_Erhg" e.SlurryCalc.ec_graded_Cvt;
-         out_list "I.il" i.SlurryCalc.ic_il; out_list "I.Cvs_im" i.SlurryCalc.ic_Cvs_im; out_list "I.FB" i.SlurryCalc.ic_FB;
-         out_list "I.SB" i.SlurryCalc.ic_SB; out_list "I.He" i.SlurryCalc.ic_He; out_list "I.ELM" i.SlurryCalc.ic_ELM;
-         out_list "I.Ho" i.SlurryCalc.ic_Ho; out_list "I.Cvt_im" i.SlurryCalc.ic_Cvt_im;
-         out_list "I.graded_Cvs_im" i.SlurryCalc.ic_graded_Cvs_im; out_list "I.graded_Cvt_im" i.SlurryCalc.ic_graded_Cvt_im;
-         out_ldv "LDV" c.SlurryCalc.c_LDV; out_ldv "LDV85" c.SlurryCalc.c_LDV85]
+    out_curves (SlurryCalc.generate_curves fN sf sq p g)
+  | "Slurry.run" ->
+    (* sf sq Dp D50 salt Cv max_index nops op... ; reply: per op "F<g><c>" then the value read *)
+    let sf = get_bool a in let sq = get_bool a in
+    let dp = get_num a in let d50 = get_num a in let is_salt = get_bool a in let cv = get_num a in
+    let mi = get_int a in
+    let s = ref (SlurryState.init fN dp d50 is_salt cv (nat_of_int mi)) in
+    let nops = get_int a in
+    let buf = Buffer.create 4096 in
+    let flags st = "F" ^ out_bool st.SlurryState.gsd_dirty ^ out_bool st.SlurryState.curves_dirty in
+    Buffer.add_string buf (flags !s);
+    for _ = 1 to nops do
+      let o = match next a with
+        | "Dp" -> SlurryState.SetDp (get_num a) | "eps" -> SlurryState.SetEps (get_num a)
+        | "fluid" -> SlurryState.SetFluid (get_bool a) | "D50" -> SlurryState.SetD50 (get_num a)
+        | "Cv" -> SlurryState.SetCv (get_num a) | "rhos" -> SlurryState.SetRhos (get_num a)
+        | "rhom" -> SlurryState.SetRhom (get_num a) | "max_index" -> SlurryState.SetMaxIndex (nat_of_int (get_int a))
+        | "rhoi" -> SlurryState.SetRhoi (get_num a)
+        | "gen" -> let r15 = get_opt a in let r85 = get_opt a in SlurryState.GenGSD (r15, r85)
+        | "rGSD" -> SlurryState.ReadGSD | "rdx" -> SlurryState.ReadDx (get_num a)
+        | "rcurves" -> SlurryState.ReadCurves | "rpoint" -> SlurryState.ReadPoint (get_num a)
+        | "rscalars" -> SlurryState.ReadScalars
+        | x -> failwith ("op " ^ x) in
+      let (s1, r) = SlurryState.step fN sf sq !s o in
+      s := s1;
+      let txt = match r with
+        | SlurryState.ONone -> ""
+        | SlurryState.OGSD g -> out_pairs "GSD" g
+        | SlurryState.ONum x -> out_num x
+        | SlurryState.OCurves c -> out_curves c
+        | SlurryState.OPoint (x, y, z) -> cat [out_num x; out_num y; out_num z]
+        | SlurryState.OScalars (x, y, z) -> cat [out_num x; out_num y; out_num z] in
+      Buffer.add_string buf (" | " ^ txt ^ " " ^ flags !s)
+    done;
+    Buffer.contents buf
   | "Slurry.point" ->
     let sf = get_bool a in let sq = get_bool a in
     let p = get_params a in let g = get_pairs a in let vls = get_num a in
